@@ -10,6 +10,8 @@
 package mcpx
 
 import (
+	"sync"
+	"errors"
 	"context"
 	"fmt"
 	"strings"
@@ -29,6 +31,7 @@ type c13Spec struct {
 	Threshold  int      `json:"threshold"`
 	Pattern    []string `json:"pattern"`  // per ping: A | L (answered late, < interval/2) | S | N | R
 	CloseAfter int      `json:"close_after"` // the harness closes the session after this many intervals (if still open)
+	CloseErr   bool     `json:"close_err,omitempty"` // the transport's Close reports an error although it closes
 }
 
 func genC13(r *vh.Rand, idx int) c13Spec {
@@ -52,12 +55,13 @@ func genC13(r *vh.Rand, idx int) c13Spec {
 		return s
 	}
 	for i := 0; i < n; i++ {
-		s.Pattern = append(s.Pattern, []string{"A", "A", "L", "S", "S", "S", "R", "N"}[r.Intn(8)])
+		s.Pattern = append(s.Pattern, []string{"A", "A", "L", "S", "S", "S", "R", "N", "W", "C", "A", "S"}[r.Intn(12)])
 		if s.Pattern[i] == "N" && r.Chance(2, 3) {
 			s.Pattern[i] = "S"
 		}
 	}
 	s.CloseAfter = n + r.Range(1, 4)
+	s.CloseErr = r.Chance(1, 4)
 	return s
 }
 
@@ -65,7 +69,7 @@ func TestVerifC13(t *testing.T) {
 	cfg := vh.Config{
 		Property: "C13",
 		Cases:    vh.Pick(1500, 60000),
-		Rule: "each case: a client or server session with KeepAlive in {10 ms, 1 s, 1 h} and failure threshold in {0,1,2,3,5} over a scripted peer; ping outcomes follow a pattern of length 1..12 over {answered, answered late (< interval/2), silence, method-not-found, write rejected}, answered afterwards; the harness closes the session a few intervals later. " +
+		Rule: "each case: a client or server session with KeepAlive in {10 ms, 1 s, 1 h} and failure threshold in {0,1,2,3,5} over a scripted peer; ping outcomes follow a pattern of length 1..12 over {answered, answered late (< interval/2), silence, silence with the follow-up cancellation notice rejected, write blocked until the ping's deadline, method-not-found, write rejected}, answered afterwards; the transport's Close optionally reports an error; the harness closes the session a few intervals later. " +
 			"Thorough tier: all patterns over {A,S,N,R} up to length 6 x 4 thresholds. non-trivial: >=1 failed ping and (>=1 answered ping after a failure, or the session was closed by keep-alive). distinct = distinct (side, interval, threshold, pattern)",
 		MinNontrivial: 100,
 		Assumptions: []string{"the peer keeps draining its input; a missed ping is one that was received and not answered", "a ping whose write is rejected by the transport fails at once"},
@@ -84,9 +88,25 @@ func runC13(c *vh.Case, spec c13Spec) {
 	ctx := context.Background()
 	iv := ms(spec.IntervalMs)
 	sc := vhm.NewScriptConn(log)
+	if spec.CloseErr {
+		sc.CloseErr = errors.New("verif: exit status 1")
+	}
+	var cmu sync.Mutex
+	rejectCancel := false
 	nPing := 0
 	sc.OnWrite = func(wctx context.Context, msg jsonrpc.Message) error {
 		req, ok := msg.(*jsonrpc.Request)
+		if ok && !req.IsCall() && req.Method == "notifications/cancelled" {
+			cmu.Lock()
+			rej := rejectCancel
+			rejectCancel = false
+			cmu.Unlock()
+			if rej {
+				log.Add("cancel-notice-rejected")
+				return fmt.Errorf("%w: verif-rejected-cancel", jsonrpc2.ErrRejected)
+			}
+			return nil
+		}
 		if !ok || !req.IsCall() {
 			return nil
 		}
@@ -215,11 +235,11 @@ func decideC13(c *vh.Case, spec c13Spec) {
 			consecutive = 0
 		case "N":
 			stopped = true
-		case "S", "R":
+		case "S", "R", "W", "C":
 			failures++
 			consecutive++
 			if consecutive >= thr {
-				if o == "S" {
+				if o != "R" {
 					wantClose = t + iv/2
 				} else {
 					wantClose = t
